@@ -2926,6 +2926,8 @@ val run_msg0 : sx -> sx
 
 val run_conc1 : sx -> sx
 
+val run_lvl : sx -> sx
+
 val run_lib : sx -> sx
 
 val parses_back : bytes -> bytes -> bool
@@ -4190,6 +4192,12 @@ val conn_reader_step : bytes -> ract res
 
 val client_reader_step : bool -> bytes -> bytes option res
 
+val lookup_request : (((n * n) * string) * string) list -> n -> string option
+
+val request_decode :
+  bindings -> (((n * n) * string) * string) list -> nat -> bytes -> string
+  option res
+
 val tl_bindings : bindings
 
 val tl_methods : method0 list
@@ -4243,6 +4251,8 @@ val run_vmstack : sx -> sx
 val run_methods : sx -> sx
 
 val run_accproof : sx -> sx
+
+val run_reqdec : sx -> sx
 
 val is_up : ascii -> bool
 
